@@ -213,6 +213,63 @@ func c16Clients(c *h.Ctx, id string, r *rand.Rand) {
 	c.Sample(map[string]any{"workload": "table-clients", "fib": algo, "goroutines": g, "gomaxprocs": procs, "ops_per_goroutine": nOps})
 }
 
+// c16FaceAdds: faces are created (registered in the face table) from several goroutines at once,
+// as the listeners of different transports do. Every face must get an id of its own and be the
+// face the table returns for that id; tearing one down must not touch another one's routes.
+func c16FaceAdds(c *h.Ctx, id string, r *rand.Rand) {
+	c.Eval(1)
+	c16Setup([]string{"nametree", "hashtable"}[r.Intn(2)], 2)
+	g := []int{2, 4, 8}[r.Intn(3)]
+	per := 60
+	type made struct {
+		ls *face.NDNLPLinkService
+		id uint64
+	}
+	out := make([][]made, g)
+	var wg sync.WaitGroup
+	start := make(chan struct{})
+	for i := 0; i < g; i++ {
+		wg.Add(1)
+		go func(i int) {
+			defer wg.Done()
+			<-start
+			for k := 0; k < per; k++ {
+				ls := face.MakeNDNLPLinkService(face.NewVerifTransport(defn.NonLocal, defn.PointToPoint, 8800), face.MakeNDNLPLinkServiceOptions())
+				face.FaceTable.Add(ls)
+				out[i] = append(out[i], made{ls, ls.FaceID()})
+				if k%8 == 0 {
+					runtime.Gosched()
+				}
+			}
+		}(i)
+	}
+	close(start)
+	wg.Wait()
+	seen := map[uint64]*face.NDNLPLinkService{}
+	dups, wrong := 0, 0
+	for _, l := range out {
+		for _, m := range l {
+			if _, dup := seen[m.id]; dup {
+				dups++
+			}
+			seen[m.id] = m.ls
+			if got := face.FaceTable.Get(m.id); got != face.LinkService(m.ls) {
+				wrong++
+			}
+		}
+	}
+	c.Count("concurrent_face_registrations", int64(g*per))
+	c.Distinct(fmt.Sprintf("face-adds|g=%d", g))
+	if dups > 0 || wrong > 0 {
+		c.Violation("C16:face-ids-collide", id, fmt.Sprintf("%d faces registered concurrently from %d goroutines: %d share an id with another face, %d are not the face the table returns for their id", g*per, g, dups, wrong), nil)
+	}
+	for _, l := range out {
+		for _, m := range l {
+			face.FaceTable.Remove(m.id)
+		}
+	}
+}
+
 // workload 2: the real pipeline
 func c16Pipeline(c *h.Ctx, id string, r *rand.Rand) {
 	c.Eval(1)
@@ -579,6 +636,12 @@ func c16Run(c *h.Ctx) {
 		id := fmt.Sprintf("pipeline%d", k)
 		if c.Case(id) {
 			c16Pipeline(c, id, c.Rng(id))
+		}
+	}
+	for k := 0; k < c.Pick(3, 30); k++ {
+		id := fmt.Sprintf("faceadds%d", k)
+		if c.Case(id) {
+			c16FaceAdds(c, id, c.Rng(id))
 		}
 	}
 	n := c.Pick(6, 120)
